@@ -88,6 +88,11 @@ func oneRun(t *testing.T, prop string, sc *Scenario, genT, schedT *simrt.RecTape
 		docVaried = fo > 0 || ff
 		docOrderer = true
 	}
+	nodesReversed := false
+	if nr, ok := c.(interface{ SetNodesReversed(bool) }); ok {
+		nodesReversed = gd.N(3) == 2
+		nr.SetNodesReversed(nodesReversed)
+	}
 	explicitDefaults := false
 	if ed, ok := c.(interface{ SetExplicitDefaults(bool) }); ok {
 		explicitDefaults = gd.N(4) == 3
@@ -120,6 +125,7 @@ func oneRun(t *testing.T, prop string, sc *Scenario, genT, schedT *simrt.RecTape
 	if docOrderer {
 		probe(o, "sequence-flow-elements-reordered-in-the-document", docVaried)
 		probe(o, "optional-attributes-spelled-out-with-their-default-values", explicitDefaults)
+		probe(o, "flow-nodes-in-reverse-document-order", nodesReversed)
 	}
 	out.Viol = o.Viol
 	out.Steps = res.Steps
